@@ -49,7 +49,9 @@ pub fn tokenize_expression(input: &str) -> Result<Vec<Token>, CompilerError> {
         }
 
         if ch == '-' && chars.get(index + 1) == Some(&'>') {
-            let rest = input[index + 2..].trim_start();
+            // `index` counts characters: build the rest from the character vector
+            let rest_owned: String = chars[index + 2..].iter().collect();
+            let rest = rest_owned.trim_start();
             let parsed = parse_path_identifier(rest).ok_or_else(|| {
                 CompilerError::invalid_source("expected divert target after '->'".to_owned())
             })?;
